@@ -197,3 +197,15 @@ Proof.
     apply Forall_app. split; [exact IH | constructor; [exact I | constructor]].
   - constructor; [exact I|]. constructor; [simpl; unfold batch_size; lia | constructor].
 Qed.
+
+(** * Round 4: restart from an exported genesis in the middle of a history *)
+(** [s4] has a pooled transfer of a contract that is no longer the current ERC20 of its denom
+    (id 4 is of contract 0, id 6 of contract 2; denom 1 was re-mapped from contract 1 to 2 while id 5
+    was pending): every pending record survives the round trip, in the same place and order, and
+    the history goes on as if nothing had happened *)
+Example genesis_round_trip_nonvacuous :
+  let s' := fst (step s2 OGenesis) in
+  pool s' = pool s2 /\ batches s' = batches s2 /\ pool s2 <> [] /\ batches s2 <> [] /\
+  pool (fst (step s4 OGenesis)) = pool s4 /\
+  run (init tb1 b1 (fun _ => 0)) (firstn 14 h2 ++ [OGenesis] ++ skipn 14 h2) = s4.
+Proof. vm_compute. repeat split; discriminate. Qed.
